@@ -94,7 +94,7 @@ func vpH_C21_DaemonCodecsCanonical() {
 // decoder and encoder alike.
 //
 //vp:prop C21
-//vp:bounds for the five length-limited wire messages (peers 512, hashes 256/256, transactions 256, blocks 128): length prefix free within max-1..max+1 over a sufficiently long zero body
+//vp:bounds for the five length-limited wire messages (peers 512, hashes 256/256, transactions 256, blocks 128): length prefix free within max-1..max+1 over a sufficiently long zero body, and over a body of 8 bytes (underflow expected)
 //vp:maxvalues 8
 //vp:unwind 600
 func vpH_C21_MaxLenEnforced() {
@@ -136,6 +136,28 @@ func vpH_C21_MaxLenEnforced() {
 	} else {
 		vpAssert(err == encoder.ErrMaxLenExceeded, "length_above_the_tagged_maximum_is_refused")
 	}
+	// a length prefix that exceeds the bytes that follow is a buffer underflow,
+	// whether or not it also exceeds the tagged maximum (the reference decoder's order)
+	short := buf[:12] // 8 bytes follow the prefix: fewer than any length in max-1..max+1 (the decoders compare the element count with the remaining bytes)
+	var serr error
+	switch k {
+	case 0:
+		var o GivePeersMessage
+		_, serr = decodeGivePeersMessage(short, &o)
+	case 1:
+		var o AnnounceTxnsMessage
+		_, serr = decodeAnnounceTxnsMessage(short, &o)
+	case 2:
+		var o GetTxnsMessage
+		_, serr = decodeGetTxnsMessage(short, &o)
+	case 3:
+		var o GiveTxnsMessage
+		_, serr = decodeGiveTxnsMessage(short, &o)
+	case 4:
+		var o GiveBlocksMessage
+		_, serr = decodeGiveBlocksMessage(short, &o)
+	}
+	vpAssert(serr == encoder.ErrBufferUnderflow, "length_beyond_the_buffer_is_an_underflow_before_anything_else")
 	// encoder side
 	var eerr error
 	switch k {
